@@ -21,7 +21,7 @@ CHECKS = {
   ref="DESIGN.md §3 C02"),
 "C03": dict(
   text="Proof (for all argument values, no bound) that the run-time functions every slice expression, string slice and make([]T) is lowered to panic exactly when Go mandates it, before any heap write, and with the mandated message; obligations generated from /repo's current source on every run.",
-  note="Decided: NewSlice3 (all 2-/3-index slice forms funnel here), StringSlice, MakeSlice (+ messages), send on / close of a closed channel and close of a nil channel (ChanSend, ChanTrySend, ChanClose; decided at the commit point under the channel lock). Not decided here: nil-dereference via SIGSEGV handler, recover-ability (C04), failed type assertion CFG, placement of checks by the compiler, send on a nil channel (Go spec: blocks forever), nil-map clause (see DESIGN.md). Trusted: go/ssa+go/types, SMT solvers, runtime/math.MulUintptr, allocator contract. Integers are 64-bit bit-vectors (W=64 only).",
+  note="Decided: NewSlice3 (all 2-/3-index slice forms funnel here), StringSlice, MakeSlice (+ messages), send on / close of a closed channel and close of a nil channel (ChanSend, ChanTrySend, ChanClose; decided at the commit point under the channel lock). Compiler side (staged symbolic execution as for C02, 175 cases): Builder.IndexAddr/Index emit an AssertIndexRange check that fires exactly when the index - judged in its own type, for all 11 index types, arrays/slices/strings, and sampled constant indexes - is out of range; Builder.Slice hands low/high to NewSlice3/StringSlice value-preservingly. Not decided here: nil-dereference via SIGSEGV handler, recover-ability (C04), failed type assertion CFG, placement of checks by the compiler, send on a nil channel (Go spec: blocks forever), nil-map clause (see DESIGN.md). Trusted: go/ssa+go/types, SMT solvers, runtime/math.MulUintptr, allocator contract. Integers are 64-bit bit-vectors (W=64 only).",
   ref="DESIGN.md §3 C03"),
 "C06": dict(
   text="Proof of the sub-claims a hash map rests on and that are carried by small functions: hash/equality coherence for float and complex keys (equal keys - including +0/-0 - hash alike; proved with the SMT floating-point theory over the IEEE bit patterns, as lemmas over the verified postconditions of f32hash/f64hash/c64hash/c128hash and f32equal..c128equal), strhash hashes exactly the string's bytes, an unhashable dynamic key type makes interhash/nilinterhash panic and only then, efaceeq/ifaceeq (nil, direct-interface and uncomparable cases), and the representation helpers tophash (>= minTopHash), bucketShift/bucketMask, isEmpty, evacuated, overLoadFactor (never for <= 8 entries), tooManyOverflowBuckets.",
@@ -41,7 +41,7 @@ CHECKS = {
   ref="DESIGN.md §3 C11"),
 "C18": dict(
   text="Proof that (*Loader).mergeConfig implements the property's merge law for EVERY field of targets.Config as it is in the working tree: the contract is generated from the struct type at check time (string: nearest non-empty definer wins; bool: or; []string: concatenation in order, element-wise; Name and *src unchanged; nothing else written). A field added and not merged, a dropped if, or replace-instead-of-append fails that field's obligation.",
-  note="Not decided yet: fold order over the inheritance forest in resolveInheritance/Load and the missing/cyclic-parent clause (DESIGN.md C18); JSON decoding (encoding/json) trusted. Assumes dst's list arrays are disjoint from src's arrays and both objects (true in resolveInheritance where dst is fresh); strings compared by representation; Go append semantics trusted.",
+  note="resolveInheritance/Load/HasInheritance/GetInherits are verified against generated contracts for the memory discipline of the fold (every mergeConfig call meets mergeConfig's separation preconditions: the result's lists are owned by the invocation, parents' lists are not; errors propagate; the name is kept). Not decided: the ORDER of the fold (parents in inherits order, then own) and the cyclic-parent clause (unbounded recursion on a cycle: see DESIGN.md §10); JSON decoding (encoding/json) trusted. Assumes dst's list arrays are disjoint from src's arrays and both objects (true in resolveInheritance where dst is fresh); strings compared by representation; Go append semantics trusted.",
   ref="DESIGN.md §3 C18"),
 "C20": dict(
   text="Proof, for every archive entry name (unconstrained symbolic string), that extractTarGz and extractZip call a file-system-creating function (os.MkdirAll, os.OpenFile, os.Create) only with a path proved to lie lexically below the destination (or to be the destination itself for parent directories), that an entry for which this cannot be established ends the extraction with an error before any such call, and that these functions call no other file-system mutator (effect allow-list: no Symlink/Link/Rename/Chmod/...), so links in archives are never materialised.",
